@@ -69,8 +69,37 @@ def run(chk):
             if any(kk is None for (kk, _, _) in st.get("specfail", [])):
                 break
 
+    if chk.tier == "thorough" and b:
+        incoq_crosscheck(chk, b[0][:400])
     vlib.conclude_differential(chk, state, more)
     chk.coverage["samples"] = samples
+
+
+def incoq_crosscheck(chk, cases):
+    """Evaluate the model INSIDE Coq (vm_compute) on a shard of the cases and compare with the
+    implementation's verdicts: cross-checks extraction + OCaml driver (thorough tier)."""
+    items = []
+    for line in cases:
+        try:
+            x = vlib.parse_sexp(line)
+            hdr = [v for v in x[1][1:]]
+            d = int(x[2])
+            ttl = x[3]
+            exp = "None" if ttl[1] == "f" else "(Some (%s)%%Z)" % ttl[2]
+            items.append("(%s, (%d)%%Z, %s)" % ("[" + ";".join(vlib.coq_bytes_lit(h) for h in hdr) + "]", d, exp))
+        except Exception:  # noqa: BLE001
+            continue
+    src = ("From Gv Require Import lib.Bytes C16.Model.\nFrom Coq Require Import ZArith.\nOpen Scope N_scope.\n"
+           "Definition oz_eqb (a b : option Z) : bool := match a, b with None, None => true | Some x, Some y => Z.eqb x y | _, _ => false end.\n"
+           "Definition cases : list (list bytes * Z * option Z) := [\n" + ";\n".join(items) + "].\n"
+           "Definition bad := length (filter (fun c => match c with (h, d, e) => negb (oz_eqb (ttl h d) e) end) cases).\n"
+           "Eval vm_compute in bad.\n")
+    rc, out = vlib.coq_eval(chk, "c16_cases", src)
+    okc = rc == 0 and "= 0%nat" in out.replace("\n", " ")
+    chk.coverage["incoq_vm_compute_cases"] = len(items)
+    chk.coverage["incoq_vm_compute_ok"] = okc
+    if not okc:
+        chk.add_violation("tie:C16/incoq-crosscheck", "in-Coq evaluation of the model disagrees with the implementation or failed: " + out[-800:], found_input=False)
 
 
 def replay(chk, path):
